@@ -18,14 +18,14 @@ DEMO_FILES=$(git status --porcelain -uall | grep '^??' | awk '{print $2}' | grep
 LOG=$OUT/confirm.log; : > $LOG
 echo "demo files: $DEMO_FILES" >> $LOG
 echo "demo cmd: $DEMO_CMD" >> $LOG
-( eval "$DEMO_CMD" ) >> $LOG 2>&1; RC_WITH=$?
+( eval "timeout 900 $DEMO_CMD" ) >> $LOG 2>&1; RC_WITH=$?
 mkdir -p /tmp/demo_stash_$NAME; for f in $DEMO_FILES; do mkdir -p /tmp/demo_stash_$NAME/$(dirname $f); mv $f /tmp/demo_stash_$NAME/$f; done
-cargo test --workspace --no-fail-fast --offline > $OUT/suite.log 2>&1; RC_SUITE=$?
+timeout 2400 cargo test --workspace --no-fail-fast --offline > $OUT/suite.log 2>&1; RC_SUITE=$?   # 124 = an existing test hung
 PASSED=$(grep -E "^test result" $OUT/suite.log | awk '{p+=$4; f+=$6} END {print p" passed "f" failed"}')
 grep -E "^test .* FAILED|^---- .* ----" $OUT/suite.log | head -5 >> $LOG
 for f in $DEMO_FILES; do mv /tmp/demo_stash_$NAME/$f $f; done; rm -rf /tmp/demo_stash_$NAME
 git apply -R out/patch.diff >> $LOG 2>&1
-( eval "$DEMO_CMD" ) >> $LOG 2>&1; RC_WITHOUT=$?
+( eval "timeout 900 $DEMO_CMD" ) >> $LOG 2>&1; RC_WITHOUT=$?
 git apply out/patch.diff >> $LOG 2>&1
 echo "demo_with_change_rc=$RC_WITH suite_rc=$RC_SUITE ($PASSED) demo_without_change_rc=$RC_WITHOUT" | tee -a $LOG
 tail -c 600 $OUT/suite.log > $OUT/suite_tail.log; rm -f $OUT/suite.log
@@ -37,7 +37,7 @@ mkdir -p $VC/work
 sed -i "s#\"/repo#\"$WT#g" $VC/harness/Cargo.toml $VC/lib/attrs_check.py
 RES=""
 for P in $PROPS; do
-  ( cd $VC && ./check $P --tier quick > $OUT/check_$P.log 2>&1 ); RC=$?
+  ( cd $VC && timeout 2400 ./check $P --tier quick > $OUT/check_$P.log 2>&1 ); RC=$?
   RES="$RES $P:rc=$RC"
   grep -E "^VIOLATION|^KNOWN|^TOOL-ERROR" $OUT/check_$P.log | head -3
 done
